@@ -1,19 +1,23 @@
 #!/bin/sh
-# usage: seed_run.sh <patch.diff> <property>...   — run the given checks on a scratch worktree with the patch applied
+# usage: seed_run.sh <patch.diff> <property>...|all   — run the given checks on a scratch worktree with the patch applied
 P=$1; shift
+[ "$1" = all ] && set -- C01 C02 C03 C04 C05 C06 C07 C08 C09 C10 C11 C12 C13 C14 C15 C16 C17 C18 C19 C20
 S=$(mktemp -d /tmp/vsr-XXXXXX); rmdir $S
 git -C /repo worktree add -q --detach $S HEAD || exit 2
 git -C $S apply "$(realpath "$P")" || { git -C /repo worktree remove --force $S; exit 2; }
 for p in "$@"; do
-  /verif/bin/prunnerlint -property $p -repo $S -verif /verif -config linux/amd64 -obs-out /tmp/vsr-$$.json >/dev/null 2>&1
-  python3 - /tmp/vsr-$$.json $p <<'PY'
-import json,sys
+  ( /verif/bin/prunnerlint -property $p -repo $S -verif /verif -config linux/amd64 -obs-out /tmp/vsr-$$-$p.json >/dev/null 2>&1
+  python3 - /tmp/vsr-$$-$p.json $p > /tmp/vsr-$$-$p.txt <<'PY'
+import json,sys,os
 v=json.load(open(sys.argv[1]))
 if v.get('error'): print(sys.argv[2],'ERROR',v['error'][:400])
 bad=[o for o in (v.get('obs') or []) if o['verdict'] in ('violation','undecided')]
 print(sys.argv[2], 'fired' if bad else 'silent', len(bad))
-for o in bad[:8]: print('   ',o['rule'],'@',o['construct'],'(',o['pos'],')',o.get('detail','')[:200])
+W=int(os.environ.get('W','700'))
+for o in bad[:int(os.environ.get('N','8'))]: print('   ',o['rule'],'@',o['construct'],'(',o['pos'],')',o.get('detail','')[:W])
 PY
-  rm -f /tmp/vsr-$$.json
+  rm -f /tmp/vsr-$$-$p.json ) &
 done
+wait
+for p in "$@"; do cat /tmp/vsr-$$-$p.txt; rm -f /tmp/vsr-$$-$p.txt; done
 git -C /repo worktree remove --force $S
